@@ -110,6 +110,28 @@ func (x *c19) binding(c *sim.RawClient) {
 	x.rec.FP("binding/%s/fam%d", transportName(c.IsTCP), famOfIP(cip))
 }
 
+// nonRequest: a message that is no request - a response of any method, or an indication - is
+// never answered, whatever it carries (also an attribute the server does not know from the
+// comprehension-required range). The response monitor reports anything the server sends back.
+func (x *c19) nonRequest(c *sim.RawClient) {
+	class := pick(x.rng, []uint8{wire.ClassSuccess, wire.ClassError, wire.ClassIndication})
+	method := pick(x.rng, []uint16{wire.MethodBinding, wire.MethodAllocate, wire.MethodRefresh, wire.MethodData, wire.MethodSend, wire.MethodChannelBind})
+	b := wire.NewBuilder(method, class, x.w.NewTID())
+	extra := pick(x.rng, []string{"none", "unknown-required", "unknown-optional", "username"})
+	switch extra {
+	case "unknown-required":
+		b.Add(0x7F01, []byte{1, 2, 3, 4})
+	case "unknown-optional":
+		b.Add(0xFF01, []byte{1, 2, 3, 4})
+	case "username":
+		b.Add(wire.AttrUsername, []byte("alice"))
+	}
+	_ = c.SendRaw(b.Bytes())
+	x.w.Settle()
+	x.m.Audit(nil)
+	x.rec.FP("non-request/class%d/m%x/%s", class, method, extra)
+}
+
 func famOfIP(ip net.IP) int {
 	if ip.To4() != nil {
 		return 4
@@ -629,6 +651,9 @@ func runC19(t *testing.T, rng *rand.Rand, rec *sim.Rec, tier string, caseNo int)
 		switch rng.Intn(7) {
 		case 0:
 			x.binding(c)
+			if rng.Intn(2) == 0 {
+				x.nonRequest(c)
+			}
 		case 1:
 			x.errorPath(c)
 		case 2, 3:
